@@ -176,6 +176,8 @@ class Compiler:
                 raise CompilationError('CLOSE date must follow OPEN date')
 
             # Apply OPEN, CLOSE, and CLEAR clauses.
+            if not hasattr(self.table, 'update'):
+                raise CompilationError('the table does not support FROM expressions', node)
             self.table = self.table.update(open=node.open, close=node.close, clear=node.clear)
 
             return c_expression
